@@ -418,6 +418,9 @@ def run(model, tier="quick"):
     res.floor("base_quote_pairs_consumed_outside_uniswap", ox["sites"], 1)
     wfx = ["sub", "add", "subtract_from_balance", "add_to_balance", "__add_asset", "_record_action_callback"]
     effects_check(res, model, "Asset.sub", _C03.REF_ASSET_SUB, "wallet debit: an empty or insufficient balance rejects", wfx)
+    # constructors establish the relations between fields that the references above take for granted
+    from .ctor_refs import constructors
+    res.units["constructor_references"] = constructors(res, model, ('squeeth', 'market'))
     from ..rules.fresh import fresh_rule
     if "R-FRESH" not in res.rules:
         res.rules.append("R-FRESH")
